@@ -315,10 +315,25 @@ def check_parse_section(facts, ps, out):
     hdr = _calls_named(ps, lambda c: c['path'] == TRY_FROM_LINE)
     rdl = _calls_named(ps, lambda c: facts.ref_name(c) == 'read_line')
     fnp = [(bb, t) for bb, t in ps.calls() if callee_of(t) is None and not ps.is_cleanup(bb)]
-    out.anchor('FR', 'parse_section: skip/header/parser/read_line calls',
-               len(skip) == 1 and len(hdr) == 1 and len(fnp) == 1 and len(rdl) == 1,
-               'skip=%d header=%d parser=%d read_line=%d' % (len(skip), len(hdr), len(fnp), len(rdl)))
-    if not (len(skip) == 1 and len(hdr) == 1 and len(fnp) == 1 and len(rdl) == 1):
+    # the same facts as one decision table over (what read_line returned, skip?, header?) -- symbolic evaluation of the
+    # function with its helpers inlined; independent of how the loop is spelled (see linetable.py)
+    import linetable
+    hps = facts.hir.get(PARSE_SECTION)
+    trows = linetable.table(facts, hps) if hps is not None else [('table', False, 'parse_section not found')]
+    for lbl, okt, whyt in trows:
+        out.add('FR-F3', PARSE_SECTION, 'line-table:' + lbl, '%s:%d' % (ps.file, ps.line), okt, whyt, ordinal=False)
+    table_ok = all(x[1] for x in trows)
+    mir_shape = len(skip) == 1 and len(hdr) == 1 and len(fnp) == 1 and len(rdl) == 1
+    out.anchor('FR', 'parse_section: skip/header/parser/read_line calls', mir_shape or table_ok,
+               'skip=%d header=%d parser=%d read_line=%d table=%s' % (len(skip), len(hdr), len(fnp), len(rdl), table_ok))
+    if not mir_shape:
+        if table_ok:
+            # classify-then-act pipelines: the control-flow-graph form of the rules does not apply to the split function;
+            # their content is what the table just established
+            for rule, lbl in (('FR-F3', 'order:skip<header<parser'), ('FR-F3', 'same-line'), ('FR-F3', 'skip-edge'),
+                              ('FR-F3', 'header-edge'), ('FR-F4', 'return<-Continue'), ('FR-F4', 'return<-Break'),
+                              ('FR-F4', 'return<-Err'), ('SW', 'parser-result'), ('SW', 'parser-result-not-returned')):
+                out.add(rule, PARSE_SECTION, lbl, '%s:%d' % (ps.file, ps.line), True, '', {'via': 'line table'}, ordinal=False)
         return
     sb, st = skip[0]
     hb, ht = hdr[0]
